@@ -300,6 +300,20 @@ def run_check(pid, tier, seed):
         return 2
     m = merge([r[1] for r in res])
 
+    # optional extra campaign run by the parent (e.g. the atheris campaign of C09/C14 in the thorough tier)
+    extra_cov = {}
+    if hasattr(mod, "extra_campaign"):
+        ex = mod.extra_campaign(tier, seed) or {}
+        extra_cov = ex.get("coverage", {})
+        for f in ex.get("failures", []):
+            ki = match_known(known, f["viol"].get("sig", {}))
+            if ki is not None:
+                m["known_hits"][str(ki)] += 1
+                m["known_samples"].setdefault(str(ki), {"case": f["case"], "viol": f["viol"]})
+            else:
+                m["failures"].append(f)
+        m["evals"] += int(ex.get("evaluations", 0))
+
     # de-duplicate new violations by signature
     new, seen = [], set()
     for f in m["failures"]:
@@ -332,6 +346,7 @@ def run_check(pid, tier, seed):
     }
     if hasattr(mod, "coverage_extra"):
         coverage.update(mod.coverage_extra(tier))
+    coverage.update(extra_cov)
     evidence = {
         "property_id": pid, "tier": tier, "seed": seed, "level": getattr(mod, "LEVEL", "exploration"),
         "coverage": coverage,
